@@ -181,7 +181,8 @@ class Contract:
     """A group of cases for one real function."""
 
     def __init__(self, target, properties, cases, models=None, inline_ok=None, loop_specs=None,
-                 pow_fn=None, trusted=(), note="", axioms=None, interpret_always=(), expect_min_paths=1, total_arith=False):
+                 pow_fn=None, trusted=(), note="", axioms=None, interpret_always=(), expect_min_paths=1, total_arith=False,
+                 sum_specs=None):
         self.target = target
         self.properties = tuple(properties)
         self.cases = list(cases)
@@ -194,6 +195,7 @@ class Contract:
         self.axioms = axioms  # callable() -> list of z3 axioms
         self.interpret_always = interpret_always
         self.total_arith = total_arith
+        self.sum_specs = sum_specs or {}
         for c in self.cases:
             c.target = c.target or target
             if not c.properties:
@@ -357,6 +359,7 @@ def run_path(contract, case, prefix, models):
     interp = Interp(path, models, inline_ok=contract.inline_ok, loop_specs=contract.loop_specs,
                     pow_fn=contract.pow_fn or library.pow_model, interpret_always=contract.interpret_always,
                     total_arith=contract.total_arith)
+    interp.sum_specs = contract.sum_specs
     cx.interp = interp
     outcome = None
     try:
